@@ -17,7 +17,7 @@ BOUNDS = {"quick": "LV(4,3) x {bool,int8,int64,uint8,uint64,float64} x 3 pattern
           "thorough": "LV(5,3) u LV(3,5), plus int16/int32/float32, diff n=0..6"}
 DT_Q = ["bool", "int8", "int64", "uint8", "uint64", "float64"]
 OPS = ["cumsum_m", "cumsum_f", "add.acc", "sub.acc", "xor.acc", "sort_m", "sort_default", "sort_axis1", "cumsum_axis1", "unique", "unique_c", "unique_axis1",
-       "diff_default", "diff_axis1", "add.acc_axis1"]
+       "diff_default", "diff_axis1", "add.acc_axis1", "diff_noaxis"]
 
 
 def shards(tier):
@@ -94,6 +94,9 @@ def _op(acc, op, ra, dt, lens):
     elif op == "unique_axis1":
         ref = lambda r: np.unique(r)
         call = lambda: np.unique(ra, axis=1)
+    elif op == "diff_noaxis":
+        ref = lambda r: np.diff(r)
+        call = lambda: np.diff(ra)          # numpy's own defaults: n=1, last axis
     elif op == "diff_default":
         ref = lambda r: np.diff(r)
         call = lambda: np.diff(ra, axis=-1)
